@@ -19,6 +19,10 @@ type C17ChainCase struct {
 	Tree    kit.TreeCase     `json:"tree"`
 	Steps   []kit.SubmitStep `json:"steps"`
 	FlushAt []int            `json:"flush_at,omitempty"`
+	// AbortAt: store operations (same numbering as FlushAt) after which the
+	// process stops: the call is abandoned, the backend discards what was not
+	// flushed (Cancel) and the store is opened again on it.
+	AbortAt []int `json:"abort_at,omitempty"`
 }
 
 func genC17Chain(t *rapid.T) C17ChainCase {
@@ -35,6 +39,11 @@ func genC17Chain(t *rapid.T) C17ChainCase {
 	for i := 0; i < n; i++ {
 		c.FlushAt = append(c.FlushAt, kit.Uniform(t, 3*len(tc.Blocks)+4, "flushat"))
 	}
+	if kit.Chance(t, 50, "abortroll") {
+		for i := 0; i < 1+kit.Uniform(t, 2, "nabort"); i++ {
+			c.AbortAt = append(c.AbortAt, kit.Uniform(t, 2*len(tc.Blocks)+2, "abortat"))
+		}
+	}
 	return c
 }
 
@@ -47,6 +56,10 @@ func runC17Chain(c C17ChainCase, cs *kit.CaseStats) error {
 	flushAt := map[int]bool{}
 	for _, f := range c.FlushAt {
 		flushAt[f] = true
+	}
+	abortAt := map[int]bool{}
+	for _, f := range c.AbortAt {
+		abortAt[f] = true
 	}
 	type inst struct {
 		name string
@@ -61,10 +74,21 @@ func runC17Chain(c C17ChainCase, cs *kit.CaseStats) error {
 		}
 		defer n.Close()
 		in := &inst{name: be, node: n}
-		hook := func(types.ChainIndex) bool { in.ops++; return flushAt[in.ops-1] }
-		n.Hooked.AfterApply = func(cs2 consensusState) bool { return hook(cs2.Index) }
-		n.Hooked.AfterRevert = func(cs2 consensusState) bool { return hook(cs2.Index) }
 		insts = append(insts, in)
+	}
+	install := func(in *inst) {
+		hook := func(types.ChainIndex) bool {
+			in.ops++
+			if abortAt[in.ops-1] {
+				panic(crashSentinel{})
+			}
+			return flushAt[in.ops-1]
+		}
+		in.node.Hooked.AfterApply = func(cs2 consensusState) bool { return hook(cs2.Index) }
+		in.node.Hooked.AfterRevert = func(cs2 consensusState) bool { return hook(cs2.Index) }
+	}
+	for _, in := range insts {
+		install(in)
 	}
 	ref := insts[0]
 	for si, st := range c.Steps {
@@ -74,12 +98,48 @@ func runC17Chain(c C17ChainCase, cs *kit.CaseStats) error {
 		}
 		var refErr error
 		var refDump kit.Dump
+		refCrashed := false
 		for i, in := range insts {
 			var err error
-			if validated {
-				err = in.node.CM.AddValidatedV2Blocks(blocks, states)
-			} else {
-				err = in.node.Submit(blocks)
+			crashed := false
+			func() {
+				defer func() {
+					if r := recover(); r != nil {
+						if _, ok := r.(crashSentinel); !ok {
+							panic(r)
+						}
+						crashed = true
+					}
+				}()
+				if validated {
+					err = in.node.CM.AddValidatedV2Blocks(blocks, states)
+				} else {
+					err = in.node.Submit(blocks)
+				}
+			}()
+			if crashed {
+				// the process stopped inside the call: what was not flushed is
+				// gone, the store is opened again on the same backend
+				in.node.Backend.DB.Cancel()
+				n2, rerr := kit.OpenNode(tr, in.node.Backend)
+				if rerr != nil {
+					return fmt.Errorf("step %d: backend %s: opening the store again after a stop at store operation %d failed: %v", si, in.name, in.ops-1, rerr)
+				}
+				for id := range in.node.Submitted {
+					n2.Submitted[id] = true
+				}
+				n2.MaxHeight = in.node.MaxHeight
+				in.node = n2
+				install(in)
+				err = fmt.Errorf("process stopped")
+				if i == 0 {
+					cs.Class("chain:stop-inside-a-call-cancel-reopen")
+				}
+			}
+			if i == 0 {
+				refCrashed = crashed
+			} else if crashed != refCrashed {
+				return fmt.Errorf("step %d: INFRA: backend %s stopped=%v, %s stopped=%v (operation numbering differs)", si, in.name, crashed, ref.name, refCrashed)
 			}
 			d := in.node.Dump(kit.DumpOpts{})
 			if i == 0 {
@@ -113,7 +173,7 @@ func runC17Chain(c C17ChainCase, cs *kit.CaseStats) error {
 
 var c17ChainProp = kit.Prop[C17ChainCase]{
 	ID:          "C17",
-	Rule:        "chain level: a generated fork-tree history (with corruptions, reorgs, failed reorgs, injected flushes at drawn store operations) is replayed over MemDB, CacheDB(MemDB), CacheDB(CacheDB(MemDB)), Bolt and CacheDB(Bolt); after every submission the outcome, Tip, TipState and the complete store dump must agree across all backends. Non-trivial = at least 6 single applies/reverts.",
+	Rule:        "chain level: a generated fork-tree history (with corruptions, reorgs, failed reorgs, injected flushes at drawn store operations) is replayed over MemDB, CacheDB(MemDB), CacheDB(CacheDB(MemDB)), Bolt and CacheDB(Bolt), in half of the cases with one or two process stops at drawn store operations (the call is abandoned, the backend cancels what was not flushed, the store is opened again on it); after every submission or stop the outcome, Tip, TipState and the complete store dump must agree across all backends. Non-trivial = at least 6 single applies/reverts.",
 	Assumptions: c17Assumptions,
 	Gen:         genC17Chain,
 	Run:         runC17Chain,
